@@ -21,6 +21,7 @@ type solver struct {
 	inc     io.WriteCloser
 	out     *bufio.Reader
 	defined map[int]bool // term ids defined in current session
+	oldCore bool         // z3's classic SMT core (better on 64-bit arithmetic)
 	depth   int          // scopes pushed above the base scope
 	defAt   [][]int      // ids defined at each depth
 	logAt   [][]int      // ids asserted at each depth (determinism check of replays)
@@ -34,7 +35,7 @@ type solver struct {
 	log     io.Writer
 }
 
-func newSolver(tt *termTable) *solver {
+func newSolver(tt *termTable, oldCore bool) *solver {
 	cmd := exec.Command(SolverCmd[0], SolverCmd[1:]...)
 	in, _ := cmd.StdinPipe()
 	out, _ := cmd.StdoutPipe()
@@ -46,6 +47,12 @@ func newSolver(tt *termTable) *solver {
 	if p := os.Getenv("GOSYM_SMTLOG"); p != "" {
 		f, _ := os.Create(fmt.Sprintf("%s.%d", p, os.Getpid()))
 		sv.log = f
+	}
+	sv.oldCore = oldCore
+	if !oldCore {
+		// the SAT-based SMT core of z3 5.x is ~40% faster on these
+		// incremental bit-vector queries (same answers on the recorded logs)
+		sv.send("(set-option :sat.smt true)")
 	}
 	sv.send("(push)")
 	sv.defAt = [][]int{nil}
@@ -304,6 +311,11 @@ type Observation struct {
 }
 
 func (p *pathCtx) freshVar(prefix string, w int) *term {
+	if w >= 32 && !p.sol.oldCore {
+		// 64-bit arithmetic (decimal digit loops) is pathological for the
+		// SAT-based core: redo this obligation on the classic core
+		panic(pathStop{"switch-core"})
+	}
 	v := p.tt.variable(fmt.Sprintf("%s%d", prefix, p.nvar), w)
 	p.nvar++
 	p.vars = append(p.vars, v)
